@@ -271,6 +271,11 @@ func reuseCheckShape(reuse DenseTensor, s Shape) (err error) {
 
 	if axes := reuse.transposeAxes(); axes != nil {
 		ReturnInts(axes)
+		// the tensor must not keep the slice it has just handed back: the pool zeroes it and issues it to the next borrower,
+		// and a later ReturnTensor would hand it back a second time
+		if d, ok := reuse.(*Dense); ok {
+			d.transposeWith = nil
+		}
 	}
 
 	if viewOf := reuse.parentTensor(); viewOf != nil {
